@@ -166,6 +166,10 @@ Inputs(t, d) ==
             LET idx == 1..Len(t.f) IN
             {Obj(<<>>)}
             \cup UNION {{Obj(<< <<t.f[i].name, x>> >>) : x \in Inputs(t.f[i].t, Dec(d))} : i \in idx}
+            \* members for the embedded fallback: under the name its entries in Values have, and twice
+            \cup (IF t.fb = <<>> THEN {} ELSE
+                  {Obj(<< <<<<122>>, x>> >>) : x \in Inputs(t.fb[1], Dec(d))}
+                  \cup {Obj(<< <<<<122>>, x>>, <<<<122>>, y>> >>) : x, y \in Inputs(t.fb[1], 0)})
             \cup (IF d = 0 THEN {} ELSE
                   {Arr(<<>>), Obj(<< <<<<122, 122>>, N(<<49>>)>> >>), Obj(<< <<<<122, 122>>, N(<<49>>)>>, <<<<122, 122>>, Arr(<<>>)>> >>)}
                   \cup UNION {{Obj(<< <<Flip(t.f[i].name), x>> >>) : x \in Inputs(t.f[i].t, 0)} : i \in idx}
